@@ -49,14 +49,21 @@ func Reserve() (*Port, error) {
 	// SO_REUSEADDR as well: a plain net.Listen of the owner (which sets SO_REUSEADDR, not SO_REUSEPORT) can then bind the
 	// port too, because the reservation never listens; the kernel still does not hand the port to anyone binding port 0.
 	syscall.SetsockoptInt(fd, syscall.SOL_SOCKET, syscall.SO_REUSEADDR, 1)
-	// The port is drawn from below the kernel's ephemeral range (32768-60999 here): a port the kernel hands out for port 0 may
-	// have been, a moment ago, the listener of a foreign process whose peers still knock (seen: health checkers and SCAN
-	// iterations of the repository's own tests, run by someone else on the same machine, reaching the simulated nodes of C12
-	// and the connection limit of C20). Which port is drawn never matters to a property, so this is not part of the seeded run.
-	// An explicit port with SO_REUSEPORT would be shared with another process's reservation, hence the probe without options.
+	// The port comes from a block of ports that belongs to this process alone, below the kernel's ephemeral range
+	// (32768-60999 here), and the block is walked round robin. A port the kernel hands out for port 0 - or one drawn from a
+	// range all processes share - may have been, a moment ago, the listener of another process whose peers still knock: seen
+	// were the health checkers and SCAN iterations of the repository's own tests run by someone else on the machine, and the
+	// reconnecting backend clients of proxies that a deliberately broken tree had left unstoppable in another check's process,
+	// reaching the simulated nodes of C12, the connection limit of C20 and a non-member backend of C06. Which port is drawn
+	// never matters to a property, so this is not part of the seeded run.
 	bound := false
-	for try := 0; try < 64 && !bound; try++ {
-		sa := &syscall.SockaddrInet4{Port: 10000 + rand.Intn(22000), Addr: [4]byte{127, 0, 0, 1}}
+	for try := 0; try < blockSize && !bound; try++ {
+		p := nextBlockPort()
+		if p == 0 {
+			break
+		}
+		sa := &syscall.SockaddrInet4{Port: p, Addr: [4]byte{127, 0, 0, 1}}
+		// an explicit port with SO_REUSEPORT is shared with an earlier reservation of this process: probe without options first
 		probe, err := syscall.Socket(syscall.AF_INET, syscall.SOCK_STREAM|syscall.SOCK_CLOEXEC, 0)
 		if err != nil {
 			break
@@ -144,4 +151,48 @@ func (p *Port) Blackhole() (func(), error) {
 		return nil, fmt.Errorf("portres: connects to %s still succeed with a full accept queue", p.Addr)
 	}
 	return end, nil
+}
+
+// Port blocks: [blockBase + k*blockSize, +blockSize) for k < blockCount. A process owns a block while it holds the block's
+// first port bound (no socket options: exclusive against every other bind); the other ports of the block are handed out
+// round robin, so that a port is not used again before the whole block was walked.
+const (
+	blockBase  = 10240
+	blockSize  = 256
+	blockCount = 84 // up to 31744
+)
+
+var (
+	blockMu   sync.Mutex
+	blockLock = -1 // fd holding the block, kept for the life of the process
+	blockLo   int
+	blockNext int
+)
+
+func nextBlockPort() int {
+	blockMu.Lock()
+	defer blockMu.Unlock()
+	if blockLock == -1 {
+		start := rand.Intn(blockCount)
+		for i := 0; i < blockCount && blockLock == -1; i++ {
+			lo := blockBase + ((start+i)%blockCount)*blockSize
+			fd, err := syscall.Socket(syscall.AF_INET, syscall.SOCK_STREAM|syscall.SOCK_CLOEXEC, 0)
+			if err != nil {
+				break
+			}
+			if syscall.Bind(fd, &syscall.SockaddrInet4{Port: lo, Addr: [4]byte{127, 0, 0, 1}}) == nil {
+				blockLock, blockLo = fd, lo
+			} else {
+				syscall.Close(fd)
+			}
+		}
+		if blockLock == -1 {
+			blockLock = -2 // every block is taken: ports from the kernel
+		}
+	}
+	if blockLock < 0 {
+		return 0
+	}
+	blockNext = blockNext%(blockSize-1) + 1
+	return blockLo + blockNext
 }
